@@ -469,6 +469,7 @@ async fn run_t<TC: ModelCfg>(spec: Spec) -> (Shared, Option<String>) {
     }
     // ---- writer ----
     let mut herr = None;
+    let mut writer_diverged = false;
     let mut tomb_handles = vec![];
     for (i, b) in spec.live.iter().enumerate() {
         let pause = spec.writer_pause_ms.get(i).copied().unwrap_or(0);
@@ -506,7 +507,20 @@ async fn run_t<TC: ModelCfg>(spec: Spec) -> (Shared, Option<String>) {
             Ok(eh) => {
                 let want = (cx.fin.hashes.len() - spec.live.len() + i) as u64;
                 if eh.0 != want || eh.1 != cx.fin.hashes[want as usize] {
-                    herr = Some(format!("writer publish returned ({}, ..) but the precomputed model expects epoch {want} (C01 territory)", eh.0));
+                    if spec.tombstones.is_empty() {
+                        // the (fault-free, sequential) writer itself diverged from the model: that is C01 / C12 / C16
+                        // territory; the readers of this run cannot be judged against pairs that were never published
+                        let mut g = shared.lock().unwrap();
+                        g.p("writer_diverged_from_the_model_(run_not_judged)");
+                        g.violations.clear();
+                        writer_diverged = true;
+                    } else {
+                        // the only thing running next to this publish is a tombstoning task
+                        shared.lock().unwrap().v(Violation::new(
+                            "c13_publish_diverged_under_concurrent_tombstoning",
+                            format!("publish #{i} returned ({}, {}) but the history determines ({want}, {}) - tombstoning running concurrently changed what the directory commits to", eh.0, hex::encode(&eh.1[..6]), hex::encode(&cx.fin.hashes[want as usize][..6])),
+                        ));
+                    }
                     break;
                 }
             }
@@ -534,7 +548,10 @@ async fn run_t<TC: ModelCfg>(spec: Spec) -> (Shared, Option<String>) {
         f.read_fail_permille.clear();
         f.clock_jump_permille = 0;
     });
-    if herr.is_none() {
+    if writer_diverged {
+        shared.lock().unwrap().violations.clear();
+    }
+    if herr.is_none() && !writer_diverged && shared.lock().unwrap().violations.is_empty() {
         let final_e = (cx.fin.hashes.len() - 1) as u64;
         for (ri, rs) in spec.readers.iter().enumerate() {
             if let (Some(ms), Some(r), 0) = (rs.poller_ms, &reader_dirs[ri], rs.read_fail_permille) {
